@@ -26,7 +26,15 @@ impl std::ops::Rem for &Primitive {
 
         let (t1, t2) = (&self, &rhs);
 
-        let math = apply_math_bin_op_if_applicable!(t1 % t2);
+        // `MIN % -1` overflows Rust's `%` although the remainder, 0, is representable:
+        // take signed integer remainders with `wrapping_rem`.
+        let math = match (t1, t2) {
+            (Int(x), Int(y)) => Some(int!(x.wrapping_rem(*y))),
+            (Int(x), BigInt(y)) => Some(bigint!((*x as i128).wrapping_rem(*y))),
+            (BigInt(x), BigInt(y)) => Some(bigint!(x.wrapping_rem(*y))),
+            (BigInt(x), Int(y)) => Some(bigint!(x.wrapping_rem(*y as i128))),
+            _ => apply_math_bin_op_if_applicable!(t1 % t2),
+        };
 
         if let Some(result) = math {
             Ok(result)
